@@ -216,7 +216,7 @@ def main(argv):
         if a.tier == "thorough":
             for tgt in ("aarch64-unknown-linux-gnu", "riscv64gc-unknown-linux-gnu"):
                 try:
-                    miri_cross_target(tgt, a.seed, int(160 * a.scale), rep)
+                    miri_cross_target(tgt, a.seed, int(500 * a.scale), rep)
                 except Inconclusive as e:
                     rep.incon.append("miri %s: %s" % (tgt, e))
         rep.extra["responses_differing_within_documented_freedom"] = allowed
